@@ -257,6 +257,19 @@ Proof.
   apply safe_forall with (2 := H). intros f Hf. apply csv_safe_inv in Hf. tauto.
 Qed.
 
+Lemma lines_export_csv header rows :
+  Forall (fun f => csv_safe f = true) header -> Forall (safe_row (length header)) rows ->
+  lines (export_csv header rows) = map (join [COMMA]) (header :: rows).
+Proof.
+  intros Hh Hrows.
+  rewrite (export_csv_safe header rows (length header)) by assumption.
+  rewrite lines_written.
+  2:{ constructor; [apply line_no_lf; exact Hh|].
+      induction Hrows as [|r rows [_ Hr] _ IH]; constructor; [apply line_no_lf; exact Hr | exact IH]. }
+  cbn [map]. rewrite line_strip_cr by exact Hh. f_equal.
+  induction Hrows as [|r rows [_ Hr] _ IH]; [reflexivity|]. cbn [map]. rewrite line_strip_cr by exact Hr. rewrite IH. reflexivity.
+Qed.
+
 (** csv_roundtrip, the true version: with safe fields in rectangular rows the code's reader returns
     exactly the header and rows the code's writer was given. *)
 Theorem csv_code_roundtrip_thm : forall (header : list str) (rows : list (list str)),
